@@ -375,20 +375,28 @@ class Recorder:
             return res
 
         def extend_hull(tri, new_vertex, eps=1e-8):
-            index = {}
-            for i, v in enumerate(tri.vertices):
-                index.setdefault(tuple(v), i)
-            rec._hull = (index, [])
+            # the hull facets in the order in which _extend_hull visits them (same Counter over the same,
+            # unchanged set): vertex coordinates may be duplicated in a broken object, indices are not
+            from collections import Counter
+            try:
+                mult = Counter(face for face in tri.faces())
+                faces = [tuple(int(i) for i in f) for f, c in mult.items() if c == 1]
+            except Exception:  # noqa: BLE001
+                faces = []
+            verts = [tuple(v) for v in tri.vertices]
+            rec._hull = (faces, [])
             try:
                 return sv["_extend_hull"](tri, new_vertex, eps)
             finally:
-                idx, calls = rec._hull
+                faces, calls = rec._hull
                 rec._hull = None
                 if rec._stack and rec._stack[-1].tri is tri:
                     r = rec._stack[-1]
                     for k in range(0, len(calls) - 1, 2):
                         (f1, o1, v1), (f2, _o2, v2) = calls[k], calls[k + 1]
-                        face = tuple(idx.get(tuple(p)) for p in f1)
+                        j = k // 2
+                        face = faces[j] if j < len(faces) and tuple(verts[i] for i in faces[j]) == tuple(map(tuple, f1)) \
+                            else tuple(None for _ in f1)
                         r.orient.append((face, tuple(o1), v1, v2, f1 == f2))
 
         def orientation(face, origin):
